@@ -110,14 +110,26 @@ func mutants(args []string) int {
 			continue
 		}
 		t0 := time.Now()
-		cmd := exec.Command(self, "check", m.prop, "--tier", tier)
-		cmd.Env = append(os.Environ(), "VERIF_MUTANT_DIR="+dir)
-		out, err := cmd.CombinedOutput()
+		var out []byte
 		code := 0
-		if ee, ok := err.(*exec.ExitError); ok {
-			code = ee.ExitCode()
-		} else if err != nil {
-			code = -1
+		prop := m.prop
+		// the property the change was written against first; if its check does not see the change, the checks named in
+		// meta.json's also_checked_by (the change breaks their property as well, at another level of integration)
+		for _, pr := range append([]string{m.prop}, m.extraProps...) {
+			cmd := exec.Command(self, "check", pr, "--tier", tier)
+			cmd.Env = append(os.Environ(), "VERIF_MUTANT_DIR="+dir)
+			var err error
+			out, err = cmd.CombinedOutput()
+			code = 0
+			if ee, ok := err.(*exec.ExitError); ok {
+				code = ee.ExitCode()
+			} else if err != nil {
+				code = -1
+			}
+			prop = pr
+			if code != 0 {
+				break
+			}
 		}
 		sigs := []string{}
 		for _, l := range strings.Split(string(out), "\n") {
@@ -144,7 +156,11 @@ func mutants(args []string) int {
 				first = first[:160]
 			}
 		}
-		rows = append(rows, fmt.Sprintf("| %s | %s | %s (exit %d, %.0fs) | %s |", m.name, m.prop, verdict, code, time.Since(t0).Seconds(), strings.ReplaceAll(first, "|", "/")))
+		shown := m.prop
+		if prop != m.prop {
+			shown = m.prop + " (missed) -> " + prop
+		}
+		rows = append(rows, fmt.Sprintf("| %s | %s | %s (exit %d, %.0fs) | %s |", m.name, shown, verdict, code, time.Since(t0).Seconds(), strings.ReplaceAll(first, "|", "/")))
 		fmt.Println(rows[len(rows)-1])
 		if os.Getenv("VERIF_MUTANT_VERBOSE") != "" || code == 2 {
 			fmt.Println(string(out))
